@@ -38,7 +38,11 @@ SHARED_NODE = frozenset({
 })
 
 KINDS = {"req": lambda n: node.app_request(n), "ans": lambda n: node.app_answer(n),
-         "grp": lambda n: node.app_request(n, grouped=True), "dwr": lambda n: node.dwr(0x0e000000 + n, 0x0f000000 + n)}
+         "grp": lambda n: node.app_request(n, grouped=True), "dwr": lambda n: node.dwr(0x0e000000 + n, 0x0f000000 + n),
+         # well framed but undecodable (unknown Disconnect-Cause enumerator): the decoder rejects it; what comes
+         # before and after it in the stream is delivered all the same
+         "bad": lambda n: node.dpr(0x0e100000 + n, 0x0f100000 + n, cause=7)}
+NOT_FOR_APP = ("dwr", "bad")
 
 
 def build_sequence(kinds):
@@ -58,7 +62,7 @@ class Inbound(explore.Scenario):
         n = node.open_node(rt, role)
         msgs = build_sequence(kinds)
         stream = b"".join(msgs)
-        expect_app = [m for k, m in zip(kinds, msgs) if k != "dwr"]
+        expect_app = [m for k, m in zip(kinds, msgs) if k not in NOT_FOR_APP]
         obs = rt.observations
         obs.update(opened=n.opened, expect=[m.hex() for m in expect_app], got=[], kinds=kinds,
                    dwr_ids=[(node.header_of(m)["hbh"], node.header_of(m)["e2e"]) for k, m in zip(kinds, msgs) if k == "dwr"])
@@ -195,6 +199,16 @@ def plan(tier):
             first = len(build_sequence(kinds)[0])
             for c in (3, 20, first - 1, first + 1):
                 yield P(kinds, [c], role, "1cut+fin", True), 0
+    # an undecodable message among good ones: delivery must not depend on how the stream was cut
+    for role in ("server", "client"):
+        for kinds in (["req", "bad", "req"], ["bad", "req"], ["req", "bad"], ["dwr", "bad", "req"]):
+            msgs = build_sequence(kinds)
+            first = len(msgs[0])
+            yield P(kinds, [], role, "whole+bad"), 0
+            yield P(kinds, [first], role, "msgcut+bad"), 0
+            yield P(kinds, [first, first + len(msgs[1])], role, "msgcut+bad"), 0
+            yield P(kinds, "bytes", role, "bytewise+bad"), 0
+    yield P(["req", "bad", "req"], [], "server", "whole+bad"), 1
     yield P(["req", "req"], [], "server", "whole+fin", True), 1
     yield P(["dwr", "req"], [], "client", "whole+fin", True), 1
     if thorough:
